@@ -24,7 +24,11 @@ func u64of(x interface{}) (uint64, bool) {
 //   MODE 4: old == nil (diff against nothing)
 //   MODE 5: old emptied by deletes (in memory); new = K inserts
 //   MODE 6: new emptied by deletes; old = N entries
+//   MODE 7: as MODE 3, but the two trees live in different stores (st for old, a second store for new)
+var pairNewStore *vStore // the new tree's store when it differs from the old tree's (MODE 7)
+
 func makePair(st *vStore, cfg *RemoteConfig, bf uint) (old, nw *Mast, mdOld, mdNew *symModel, rOld, rNew *Root, ok bool) {
+	pairNewStore = st
 	N := verifBound("N")
 	K := verifBound("K")
 	mode := verifBound("MODE")
@@ -64,18 +68,33 @@ func makePair(st *vStore, cfg *RemoteConfig, bf uint) (old, nw *Mast, mdOld, mdN
 				return
 			}
 		}
-	case 2, 3:
+	case 2, 3, 7:
 		buildAscending("old", old, mdOld, N)
-		nw = fresh()
+		cfgNew := cfg
+		if mode == 7 {
+			pairNewStore = newVStore("s-new")
+			cfgNew = symConfig(pairNewStore, nil)
+		}
+		var err error
+		nw, err = NewRoot(&CreateRemoteOptions{BranchFactor: bf}).LoadMast(vctx, cfgNew)
+		verifAssert("C01.new.err", err == nil)
 		mdNew = &symModel{}
-		nw, mdNew, _ = applyOps("new", nw, mdNew, cfg, K, 1)
-		if mode == 3 {
+		nw, mdNew, _ = applyOps("new", nw, mdNew, cfgNew, K, 1)
+		if mode == 3 || mode == 7 {
 			if old, rOld, ok = persist(old); !ok {
 				return
 			}
-			if nw, rNew, ok = persist(nw); !ok {
-				return
+			r, err := nw.MakeRoot(vctx)
+			verifAssert("C01.makeroot.err", err == nil)
+			if err != nil {
+				return nil, nil, nil, nil, nil, nil, false
 			}
+			nw, err = r.LoadMast(vctx, cfgNew)
+			verifAssert("C01.load.err", err == nil)
+			if err != nil {
+				return nil, nil, nil, nil, nil, nil, false
+			}
+			rNew = r
 		}
 	case 4:
 		old = nil
@@ -300,13 +319,17 @@ func HarnessC07a() {
 	if !ok {
 		return
 	}
+	stNew := pairNewStore
 	reachOld, c1 := reachable(st, rOld)
-	reachNew, c2 := reachable(st, rNew)
+	reachNew, c2 := reachable(stNew, rNew)
 	verifAssert("C03.complete", c1 && c2)
 
-	l0 := len(st.loadLog)
+	l0, l0n := len(st.loadLog), len(stNew.loadLog)
 	added, removed, err, allStr := linkNames(nw, old)
-	difflinksLoads := st.loadLog[l0:]
+	difflinksLoads := append([]string{}, st.loadLog[l0:]...)
+	if stNew != st {
+		difflinksLoads = append(difflinksLoads, stNew.loadLog[l0n:]...)
+	}
 	verifAssert("C07.difflinks.err", err == nil)
 	verifAssert("C07.links-are-names", allStr)
 	if err != nil {
@@ -344,8 +367,8 @@ func HarnessC07a() {
 		}
 	}
 	for _, n := range added {
-		if i := st.find(n); i >= 0 {
-			st2.Store(vctx, n, st.blobs[i])
+		if i := stNew.find(n); i >= 0 {
+			st2.Store(vctx, n, stNew.blobs[i])
 		}
 	}
 	t3, err := rNew.LoadMast(vctx, symConfig(st2, nil))
@@ -378,10 +401,13 @@ func HarnessC07a() {
 		return c
 	}
 	verifAssert("C15.difflinks-reads", distinct(difflinksLoads) <= 2*D+2)
-	l0 = len(st.loadLog)
+	l0, l0n = len(st.loadLog), len(stNew.loadLog)
 	err = nw.DiffIter(vctx, old, func(added, removed bool, key, av, rv interface{}) (bool, error) { return true, nil })
 	verifAssert("C06.diffiter.err", err == nil)
-	diffiterLoads := st.loadLog[l0:]
+	diffiterLoads := append([]string{}, st.loadLog[l0:]...)
+	if stNew != st {
+		diffiterLoads = append(diffiterLoads, stNew.loadLog[l0n:]...)
+	}
 	verifAssert("C15.diffiter-reads", distinct(diffiterLoads) <= 2*D+2)
 	sameVersion := false
 	if rOld.Link != nil && rNew.Link != nil {
